@@ -376,8 +376,44 @@ def gen_iseq_alias(rng, tier):
                                 yield ("iseqalias issuffix %d %s %d %d %d %d" % (base, hx(b), start, la, yo, lb), dict(family="alias-overlap"))
 
 
+def gen_iseq_long(rng, tier):
+    """operand lengths past every plausible size threshold (cache line, vector multiples, page):
+    equal / one differing byte at the ends and inside; prefix and suffix needles of every
+    threshold length inside a longer haystack whose head and tail differ"""
+    sizes = [41, 47, 48, 63, 64, 65, 66, 95, 96, 97, 127, 128, 129, 130, 191, 255, 256, 257, 300, 511, 512, 513,
+             1000, 1024, 1025, 4095, 4096, 4097, 5000]
+    sizes += [rng.randrange(41, 3000) for _ in range(10 if tier == "quick" else 100)]
+    for length in sizes:
+        x = [rng.randrange(256) for _ in range(length)]
+        for p in [None] + sorted(set([0, 1, 7, 8, length // 2, length - 9, length - 8, length - 2, length - 1, rng.randrange(length)])):
+            y = list(x)
+            if p is not None:
+                y[p] ^= 1 << rng.randrange(8)
+            for (bx, by) in ((0, 0), (3, (4096 - length) % 4096), ((4096 - length) % 4096, 5)):
+                yield ("iseq %d %s %d %s" % (bx, hx(x), by, hx(y)), dict(family="iseq-long"))
+        for k in sorted(set(sz for sz in sizes if sz < length) | {length}):
+            pre, suf = x[:k], x[length - k:]
+            yield ("isprefix %d %s %d %s" % ((4096 - length) % 4096, hx(x), 1, hx(pre)), dict(family="isprefix-long"))
+            yield ("issuffix %d %s %d %s" % (3, hx(x), (4096 - k) % 4096, hx(suf)), dict(family="issuffix-long"))
+            # the other end's bytes: a prefix needle that is the suffix and vice versa
+            yield ("isprefix 0 %s 1 %s" % (hx(x), hx(suf)), dict(family="isprefix-long"))
+            yield ("issuffix 0 %s 1 %s" % (hx(x), hx(pre)), dict(family="issuffix-long"))
+            for q in (0, k // 2, k - 1):
+                pre2 = list(pre); pre2[q] ^= 0x40
+                suf2 = list(suf); suf2[q] ^= 0x02
+                yield ("isprefix 5 %s 9 %s" % (hx(x), hx(pre2)), dict(family="isprefix-long"))
+                yield ("issuffix 5 %s 9 %s" % (hx(x), hx(suf2)), dict(family="issuffix-long"))
+        # a haystack whose head equals its tail (both answers true) and needle longer than it
+        z = x[:50] + [0x2E] * 30 + x[:50]
+        yield ("isprefix 0 %s 0 %s" % (hx(z), hx(x[:50])), dict(family="isprefix-long"))
+        yield ("issuffix 0 %s 0 %s" % (hx(z), hx(x[:50])), dict(family="issuffix-long"))
+        yield ("isprefix 0 %s 0 %s" % (hx(x), hx(x + [1])), dict(family="isprefix-long"))
+        yield ("issuffix 0 %s 0 %s" % (hx(x), hx([1] + x)), dict(family="issuffix-long"))
+
+
 def g_c18(rng, tier, budget):
     yield from gen_iseq(rng, tier, budget)
+    yield from gen_iseq_long(rng, tier)
     yield from gen_iseq_alias(rng, tier)
 
 
@@ -439,6 +475,23 @@ def g_c19(rng, tier, budget):
         for i1 in range(256):
             for i2 in range(256):
                 yield ("pairidx %s %d %d" % (hx(needle), i1, i2), dict(family="pairidx-full"))
+    # "finders built from any such pair report the pair they were given": every ordered pair of
+    # offsets of short needles over a tiny alphabet (equal bytes at both offsets, ascending and
+    # descending pairs, rare/common byte at either offset), every finder of every build
+    for variant in ("host", "neon", "simd128"):
+        for L in range(0, 6 if tier == "quick" else 7):
+            for t in itertools.product([0x61, 0x7A, 0x00], repeat=L):
+                if L >= 4 and tier == "quick" and rng.random() < 0.6:
+                    continue
+                for i1 in range(L + 1):
+                    for i2 in range(L + 1):
+                        yield ("pairreport %s %d %d" % (hx(list(t)), i1, i2), dict(cfg=variant, family="pairreport"))
+        for L in (17, 40, 255, 256, 300):
+            needle = [rng.choice([0x61, 0x65, 0x7A, 0x51]) for _ in range(L)]
+            idx = sorted(set([0, 1, 2, L // 2, L - 2, L - 1, 254, 255]) & set(range(256)))
+            for i1 in idx:
+                for i2 in idx:
+                    yield ("pairreport %s %d %d" % (hx(needle), i1, i2), dict(cfg=variant, family="pairreport-long"))
 
 
 # ---------------------------------------------------------------------------------------
@@ -988,7 +1041,35 @@ def gen_iter(rng, tier, budget, count_heavy=False):
                        dict(cfg=variant, family="iter-" + be, untraced_widths=UNTRACED.get(be)))
 
 
+def gen_iter_consumed(rng, tier):
+    """one end consumed by the iterator, then the opposite direction: the remaining window starts
+    (ends) one past (at) an already yielded match, at every start alignment and every length
+    through several unrolled-loop iterations (a load that strays one byte outside the remaining
+    window yields that match twice)"""
+    cfgs = BYTE_CFGS_QUICK if tier == "quick" else BYTE_CFGS_THOROUGH
+    aligns = [0, 1, 2, 15, 16, 17, 31, 32, 33, 47, 48, 49, 62, 63] + [rng.randrange(64) for _ in range(2)]
+    if tier != "quick":
+        aligns = list(range(64))
+    for k in (1, 2, 3):
+        needles = NEEDLE_SETS[k][0]
+        lens = range(1, 301) if k == 1 else sorted(rng.sample(range(1, 301), 40))
+        for length in lens:
+            for j in (0, 3):
+                if j >= length:
+                    continue
+                for ops, pos in (("nb", j), ("nbb", j), ("bn", length - 1 - j), ("bnn", length - 1 - j)):
+                    hh = "r%dx2e+%02x+r%dx2e" % (pos, needles[-1], length - pos - 1)
+                    for a in aligns:
+                        for (variant, picked, direct) in cfgs:
+                            yield ("iterd %s %s %d %s %s" % (picked, hx(needles), a, hh, ops),
+                                   dict(cfg=variant, family="iterd-consumed", untraced_widths=UNTRACED.get(picked)))
+                            for be in direct:
+                                yield ("iter %s %s %d %s %s" % (be, hx(needles), a, hh, ops),
+                                       dict(cfg=variant, family="iter-consumed-" + be, untraced_widths=UNTRACED.get(be)))
+
+
 def g_c06(rng, tier, budget):
+    yield from gen_iter_consumed(rng, tier)
     yield from gen_iter(rng, tier, budget)
 
 
@@ -1157,6 +1238,37 @@ def mm_pairs_targeted(rng, tier):
                         if stray < before:
                             hay[stray] = 0x51
                         yield needle, hay + needle + [0x20] * after
+    # TWO rare bytes at every combination of early / late offsets (either may be the rarer), in
+    # haystacks 0..15 bytes longer than the needle: the short-haystack path of the vector
+    # prefilters scans for ONE of the two bytes and must subtract that byte's own offset
+    common = list(b"etaoinshrdlu ")
+    for nlen in (33, 40, 56, 76):
+        spots = sorted(set([0, 1, 5, nlen // 2, nlen - 17, nlen - 16, nlen - 15, nlen - 8, nlen - 2, nlen - 1]))
+        for i in spots:
+            for j in spots:
+                if i == j:
+                    continue
+                needle = [common[t % len(common)] for t in range(nlen)]
+                needle[i] = 0x51
+                needle[j] = 0x5A
+                for before in (0, 3):
+                    for after in (0, 1, 7, 14, 15):
+                        yield needle, [0x20] * before + needle + [0x20] * after
+                yield needle, needle + needle
+                yield needle, needle[:-1] + [0x20] + needle
+    # needles longer than the 255-byte window pair selection looks at, with the rarest byte just
+    # inside / on / past the window's edge
+    for L in (255, 256, 257, 258, 300):
+        for k in (253, 254, 255, 256, 257):
+            if k >= L:
+                continue
+            for second in (None, 0, 200):
+                needle = [common[t % len(common)] for t in range(L)]
+                needle[k] = 0x51
+                if second is not None:
+                    needle[second] = 0x5A
+                yield needle, [0x20] * 5 + needle + [0x20] * 9
+                yield needle, needle[1:] + [0x51] * 3 + needle[:-1]
     # long needles with a LONG period and a short border (period > len/2): u v u[:b]
     for (plen, blen) in ((28, 12), (20, 13), (30, 5), (40, 9)):
         u = [0x30 + (i * 7) % 43 for i in range(plen)]
@@ -1313,6 +1425,7 @@ def g_c10(rng, tier, budget):
 
 def g_c16(rng, tier, budget):
     rngl = rng
+    yield from gen_finder_alias(rng, tier)
     # clone / into_owned of partially consumed iterators at every point (shared with C08)
     for op, meta in g_c08(rng, tier, budget):
         if "convert-at" in meta.get("family", "") or "-clone" in meta.get("family", ""):
@@ -1344,13 +1457,55 @@ def g_c16(rng, tier, budget):
             yield ("finderrevops %s %s %s" % (cfg, hx(needle), ",".join(ops2)), dict(cfg=variant, family="finderrevops"))
 
 
+def gen_finder_alias(rng, tier):
+    """the finder borrows its needle from INSIDE the haystack it then searches (front, middle,
+    end), for every search strategy (short/long haystacks, short/long needles); the same handle
+    then goes through as_ref / clone / into_owned, which must all answer as the first one did"""
+    units = [[0x61], [0x61, 0x62], [0x61, 0x62, 0x63], [0x61, 0x61, 0x62], list(b"abcab"), list(b"xyzzy-"),
+             list(b"The quick brown fox jumps over it. ")]
+    progs = (["f:H", "i:H", "k", "f:H", "r", "f:H", "i:H", "o", "f:H", "i:H"],
+             ["i:H", "o", "i:H", "f:H"], ["f:H", "r", "k", "f:H", "f:O", "f:H"])
+    for unit in units:
+        for reps in (2, 3, 5, 10, 30, 70):
+            hay = unit * reps
+            if len(hay) > 300:
+                continue
+            other = hay[1:] + [0x2E] + hay
+            for nl in sorted(set([1, 2, 3, len(unit), len(unit) + 1, 2 * len(unit), 9, 17, 33, 40, 65])):
+                if nl > len(hay):
+                    continue
+                for off in sorted(set([0, 1, len(unit), (len(hay) - nl) // 2, len(hay) - nl])):
+                    if off + nl > len(hay):
+                        continue
+                    needle = hay[off:off + nl]
+                    for prog in progs:
+                        ops = ",".join(t.replace("H", hx(hay)).replace("O", hx(other)) for t in prog)
+                        for (variant, cfg) in MM_CFGS_QUICK[:3] if tier == "quick" else MM_CFGS_QUICK:
+                            yield ("finderopsal %s auto %d %s %s" % (cfg, off, hx(needle), ops),
+                                   dict(cfg=variant, family="finderops-alias"))
+                            yield ("finderrevopsal %s %d %s %s" % (cfg, off, hx(needle), ops),
+                                   dict(cfg=variant, family="finderrevops-alias"))
+
+
 def g_c17(rng, tier, budget):
     # every memchr-family function / iterator, substring finders: expected allocations are
     # exactly the model's count (finderops) or zero (everything else)
     yield from g_c16(rng, tier, budget)
-    for needle, hay in mm_pairs(rng, "quick", 1200):
+    import itertools as _it2
+    shaped = []
+    # needles whose preprocessing takes every branch: an irregular head before a periodic tail
+    # (critical position early, head longer than the period), purely periodic, period > half
+    for head in (b"", b"x", b"zy", b"xyz", b"xyzw-", b"0123456789"):
+        for unit in (b"a", b"ab", b"abc", b"aab", b"abcde"):
+            for reps in (1, 3, 8, 20, 40):
+                for tail in (b"", b"q", unit[:1]):
+                    nd = list(head + unit * reps + tail)
+                    if 0 < len(nd) <= 140:
+                        shaped.append((nd, nd + [0x2E] * 40 + nd))
+    for needle, hay in _it2.chain(mm_pairs(rng, "quick", 1200), shaped, _it2.islice(mm_pairs_targeted(rng, "quick"), 1500)):
         for (variant, cfg) in MM_CFGS_QUICK[:3]:
             yield ("finderops %s auto %s f:%s" % (cfg, hx(needle), hx(hay)), dict(cfg=variant, family="finderops-find"))
+            yield ("finderrevops %s %s f:%s" % (cfg, hx(needle), hx(hay)), dict(cfg=variant, family="finderrevops-find"))
             yield ("finderops %s none %s f:%s,f:%s" % (cfg, hx(needle), hx(hay), hx(hay[::-1])), dict(cfg=variant, family="finderops-find"))
 
 
